@@ -1083,6 +1083,59 @@ def live_tail(g, tag):
         g.stats['_live_sequences_grown_after_being_borrowed'] = g.stats.get('_live_sequences_grown_after_being_borrowed', 0) + 1
 
 
+def lookalike_operand_sweep(g, rounds):
+    """Operands that are different nodes but alike in everything one can read off them: templates declared under one name (with the same
+    Forall type -- a redeclaration -- and with another -- an overload), unnamed classes / unions / enums made one after the other,
+    expression lists with nothing in them.  A constructor keyed on its operand NODE answers one result per node."""
+    P, rng = g.pick, g.rng
+    g.prologue()
+    for _ in range(rounds):
+        n = P('name')
+        fs = [f for f in (P('forall'), P('forall')) if f is not None]
+        if not fs:
+            pr = g.emit('product_seq', [P('type')])
+            fs = [g.emit('forall', [pr, P('type')])]
+        ts = [g.emit('fresh', [5, n, f]) for f in (fs + fs[:1] + fs)]
+        asked = [('guide_name', [t]) for t in ts if t is not None]
+        cls = [g.emit('fresh', [k]) for k in (0, 0, 1, 1, 2, 2, 3)]
+        for c in cls:
+            asked += [(op, [c]) for op in rng.sample(['conversion', 'ctor', 'dtor', 'pointer', 'this', 'as_type_expr'], 3)]
+        xl = [g.emit('fresh', [4]) for _ in range(3)]
+        e = P('expr')
+        asked += [('template_id', [e, x]) for x in xl]
+        for op, a in asked: g.emit(op, a)
+        rng.shuffle(asked)
+        for op, a in asked: g.emit(op, a, False)
+        g.stats['_lookalike_operands'] = g.stats.get('_lookalike_operands', 0) + len(asked)
+
+
+def qualified_operand_sweep(g, rounds):
+    """Every constructor that takes a type, asked with T, each cv-qualified version of T (also beyond the standard qualifiers) and types
+    built over them, all other arguments equal: as many different answers as there are different type nodes -- top-level qualifiers
+    are part of the argument.  Then the same requests again in another order."""
+    P, rng = g.pick, g.rng
+    g.prologue()
+    for _ in range(rounds):
+        t = P('unqual')
+        if t is None: continue
+        variants = [t] + [g.emit('qualified', [q, t]) for q in (1, 2, 3, 4, 7, 1 << 3)]
+        variants = [v for v in variants if v is not None]
+        variants += [g.emit('pointer', [variants[1]]), g.emit('reference', [variants[2]])]
+        w, n, e, pr = g.word(), P('name'), P('expr'), P('product')
+        st = g.emit('string', [w])
+        asked = []
+        for v in variants:
+            for op, a in (('literal_w', [v, w]), ('literal_s', [v, st]), ('conversion', [v]), ('ctor', [v]), ('dtor', [v]), ('this', [v]),
+                          ('symbol', [n, v]), ('pointer', [v]), ('array', [v, e]), ('function', [pr, v]), ('ptr_to_member', [v, t]),
+                          ('ptr_to_member', [t, v]), ('product_seq', [v]), ('sum_wh', [v, t]), ('forall', [pr, v])):
+                if op in g.WEIGHTS[g.profile] or op in ('literal_w', 'literal_s', 'symbol', 'pointer'):
+                    asked.append((op, a))
+        for op, a in asked: g.emit(op, a)
+        rng.shuffle(asked)
+        for op, a in asked: g.emit(op, a, False)
+        g.stats['_qualified_operand_requests'] = g.stats.get('_qualified_operand_requests', 0) + len(asked)
+
+
 def last_requests(g):
     """What a Lexicon about to be destroyed is asked last: every constructor of the profile once more, and a re-qualification."""
     ops = list(g.WEIGHTS[g.profile])
@@ -1141,6 +1194,10 @@ def build_histories(pid, tier, seed, words, builtins):
             qualifier_mix(g, [t for t in mix if t is not None and t.tag != 'qualifieds'], 6)
         if pid == 'C01' and i in (1, 2):
             nesting_sweep(g, 3 if tier == 'quick' else 12)
+        if pid in ('C01', 'C04') and i in (0, 3):
+            lookalike_operand_sweep(g, 4 if tier == 'quick' else 20)
+        if pid in ('C01', 'C04') and i in (1, 2):
+            qualified_operand_sweep(g, 3 if tier == 'quick' else 12)
         g.run(nreq)
         if pid == 'C01' and i in (1, 3):
             live_tail(g, 'products' if i == 1 else 'sums')
@@ -1544,6 +1601,12 @@ def check(pid, tier, manifest_rule):
         res.violation('statement:foreign-string', '%s: `%s` answered one node for a String of its own Lexicon and ANOTHER node for a String with the same '
                       'characters interned by another Lexicon (%s): names and atoms are told apart by spelling' % (where(k), flat[k] if 0 <= k < len(flat) else '?', a),
                       '\n'.join(flat[:k + 1]))
+    elif any(a.startswith('@foreign_qualified_operand') for _, a in other_bad):
+        k, a = next((k, a) for k, a in other_bad if a.startswith('@foreign_qualified_operand'))
+        res.violation('statement:foreign-qualified-operand', '%s: before `%s` the same set of qualifiers was requested in two steps, the first taken by '
+                      'ANOTHER Lexicon (its Qualified node is the operand of the second step, asked here): the answer is not this Lexicon\'s node '
+                      'for (the union of the qualifiers, the unqualified type), or its main variant is not that unqualified type (%s)' % (
+                          where(k), flat[k] if 0 <= k < len(flat) else '?', a), '\n'.join(flat[:k + 1]))
     elif other_bad:
         k, a = other_bad[0]
         res.violation('config', 'the implementation disagrees with the tables read from the sources: %s after `%s`; every generated request '
